@@ -287,6 +287,23 @@ def check_run(fx, rep, crate, cfg):
                 rep.check(e[0] == 'arg', 'R18.4', '%s|start-index-forwarded|%s' % (body.path, cfg), C.where(body, b),
                           'get_next_call forwards its start index unchanged to the select', 'get_next_call does not forward its start index unchanged: %s' % sym.show(e))
     rep.floor('R18.4', 3, 'push sites / start forwarding')
+    # R18.5 the select is the only source of a served call: every Ok return of get_next_call hands out the awaited SelectAll result,
+    # and no receive is started outside the futures handed to the select
+    if g is not None:
+        oks = [(b, i, st) for b, i, v, st in C.ok_err_of_return_sites(g) if v == 'Ok']
+        bad = []
+        for b, i, st in oks:
+            q = op_place(st['rv']['ops'][0]) if st.get('rv') and st['rv'].get('ops') else None
+            locs, evs = g.slice_back([q['l']]) if q else (set(), [])
+            from_select = any(e[0] == 'call' and e[2]['callee'].get('name') == 'poll' and 'select_all::SelectAll' in (e[2]['callee'].get('resolved') or '') + str(e[2]['callee'].get('args') or '') for e in evs) or \
+                any(e[0] == 'call' and e[2]['callee'].get('name') == 'into_future' and 'SelectAll' in (e[2]['callee'].get('args') or '') for e in evs)
+            if not from_select:
+                bad.append(C.where(g, b, i))
+        direct = [C.where(g, b) for b, t in g.iter_terms('call') if t['callee'].get('name') in ('receive_call', 'read_message', 'receive_reply')]
+        rep.check(bool(oks) and not bad and not direct, 'R18.5', '%s|select-is-the-only-winner-source|%s' % (g.path, cfg), g.where(),
+                  'every Ok return of get_next_call is the result of the awaited select (%d return site(s)); no receive is started outside the select' % len(oks),
+                  'get_next_call can serve a call that did not win the round-robin select (return sites not fed by the select: %s; receives started outside the select: %s): '
+                  'connections polled by the select can be bypassed and starve' % (bad, direct))
 
 
 def check(fx, rep, tier):
@@ -294,6 +311,7 @@ def check(fx, rep, tier):
     rep.rule('R18.2', 'SelectAll::poll polls (start + i) mod n for i in 0..n, returns the first Ready with the polled index, Pending only after the sweep')
     rep.rule('R18.3', 'the connection and stream lists are modified only by push / swap_remove / element access')
     rep.rule('R18.4', 'futures are pushed to the select in list order; the start index reaches the select unchanged')
+    rep.rule('R18.5', 'the round-robin select is the only source of a served call: get_next_call returns nothing but its result and starts no receive outside it')
     for cfg in ['full'] + (['ws'] if tier == 'thorough' else []):
         crate = fx.crate('zlink_core', cfg)
         check_select(fx, rep, crate, cfg)
